@@ -21,6 +21,7 @@ def build_jobs(tier, seed):
     for rt, mt in layouts:
         jobs.append(J(H['vhdx'], dict(P, cuts=1, sigs='fixed', rt=rt, mt=mt),
                       split_depth=16))
+    jobs.append(J(H['vmdk-text'], dict(P)))
     jobs += img.vmdk_jobs(J, H, PROPS, tier, {'hdr', 'desc1'})
     return jobs
 
